@@ -21,7 +21,7 @@ ASSUMPTIONS = c03_sv.ASSUMPTIONS + [
 
 def plan(tier, seed):
   q = tier == "quick"
-  return [{"hashseed": (seed * 61 + i) % 1061, "part": i, "nparts": 16, "designs": 26 if q else 400, "probes": 3 if q else 20, "params": 6 if q else 60} for i in range(16)]
+  return [{"hashseed": (seed * 61 + i) % 1061, "part": i, "nparts": 16, "designs": 26 if q else 400, "probes": 3 if q else 20, "params": 6 if q else 60, "ifcs": 4 if q else 40} for i in range(16)]
 
 
 def thresholds(tier):
@@ -164,6 +164,7 @@ def run_shard(sh):
   T.corpus_stream(sh, "ys", part, nparts, mech)
   T.stdlib_stream(sh, "ys", part, nparts, mech)
   T.param_stream(sh, "ys", sh.params.get("params", 6), mech)
+  T.ifc_stream(sh, "ys", sh.params.get("ifcs", 4), mech)
   T.specgen_stream(sh, "ys", sh.params["designs"], knobs_clean, mech, "gen")
   T.specgen_stream(sh, "ys", sh.params["probes"], knobs_probe, mech, "probe-gen", count="probe_generated_designs")
   if part == 0:
